@@ -77,6 +77,7 @@ def c05(repo, rep):
     C.r1(repo, rep, callers=T.SIMULATORS)
     C.r16(repo, rep, T.SIMULATORS)
     X.r16w(repo, rep, ["simulation"])
+    X.truthy_rule(repo, rep, ["simulation"])
     with rep.keep("R9.C04"):
         for n in ("Gillespie_SIR", "Gillespie_SIS"):
             R.r9_gillespie(repo, rep, n)
@@ -96,6 +97,7 @@ def c06(repo, rep):
                                         "_initialize_node_status_"], floor_sites=60)
     C.r16(repo, rep, [n for n in analytic if n not in O.NOTE_ONLY])
     X.r16w(repo, rep, ["analytic"])
+    X.truthy_rule(repo, rep, ["analytic"])
 
 
 def c09(repo, rep):
@@ -118,6 +120,7 @@ def c09(repo, rep):
         G.r11_sir_sis(repo, rep, "Gillespie_SIS")
     with rep.keep("DISC"):
         X.discrete_contacts(repo, rep)
+        X.discrete_history_guard(repo, rep)
     with rep.keep("INV"):
         M.investigation_rule(repo, rep)
     C.r1(repo, rep, callers=T.SIR_EVENT + T.SIS_EVENT + T.SIS_NONMARKOV)
@@ -133,8 +136,10 @@ def c10(repo, rep):
             R.r9_event_driven(repo, rep, n)
         for n in ("Gillespie_simple_contagion", "Gillespie_complex_contagion"):
             R.r9_generic(repo, rep, n)
+        R.r9_discrete(repo, rep)
     M.transform_history_rule(repo, rep)
     M.investigation_rule(repo, rep)
+    X.discrete_history_guard(repo, rep)
     with rep.keep("R10e", "R10c"):
         M.r10(repo, rep)
     M.full_data_handoff(repo, rep)
@@ -158,6 +163,7 @@ def c11(repo, rep):
 def c12(repo, rep):
     C.r1(repo, rep, callers=T.DISCRETE)
     X.discrete_contacts(repo, rep)
+    X.discrete_history_guard(repo, rep)
     with rep.keep("R9", "R9.C04"):
         R.r9_discrete(repo, rep)
     with rep.keep("R14"):
@@ -180,6 +186,7 @@ def c13(repo, rep):
 
 def c14(repo, rep):
     O.r6(repo, rep)
+    X.identity_rule(repo, rep, ["analytic", "simulation"])
     O.degree_roles(repo, rep)
     analytic = [f.name for f in repo.public_functions("analytic")]
     with rep.keep("R1c", "R1b", "R1a"):
@@ -200,7 +207,7 @@ def c16(repo, rep):
 def c17(repo, rep):
     M.r14(repo, rep)
     C.r1(repo, rep, callers=T.PERCOLATION)
-    H.proto_rule(repo, rep, ["directed_percolate_network"])
+    H.proto_rule(repo, rep, ["directed_percolate_network"], floor=0)
 
 
 def c18(repo, rep):
